@@ -13,6 +13,7 @@ import (
 	"errors"
 	"fmt"
 	"io"
+	"os"
 	"regexp"
 	"sort"
 	"strconv"
@@ -987,6 +988,10 @@ func exhaustive(L int, full bool, emit func(c caseSpec)) {
 		{{kind: 'E', k: 22}, {kind: 'B', data: d}},
 		{},
 	}
+	if !full {
+		// the two largest scopes: second answers of one stream kind only (chunk reader), no error buffer
+		seconds = [][]bufSpec{seconds[0], seconds[2], seconds[3], seconds[5]}
+	}
 	for _, kind := range []byte{'C', 'R'} {
 		for _, m := range []int{1, 2, L + 1} {
 			firsts = append(firsts, []bufSpec{{kind: kind, items: scriptOf(uniform(d, m), -1, 0)}})
@@ -1020,8 +1025,14 @@ func exhaustive(L int, full bool, emit func(c caseSpec)) {
 				if fp < 0 && len(is) > 0 {
 					continue
 				}
-				for _, os := range outerSeconds {
-					w := bufSpec{kind: 'W', inner: &bufSpec{kind: kind, items: scriptOf(uniform(d, 1+fp%2), fp, 3)}, hin: is}
+				for oi, os := range outerSeconds {
+					if !full && len(d) < 5 && (fp+len(is)+oi)%2 == 0 {
+						continue // the larger scopes take every other / every third combination
+					}
+					if !full && len(d) >= 5 && (fp+len(is)+oi)%3 != 0 {
+						continue
+					}
+					w := bufSpec{kind: 'W', inner: &bufSpec{kind: kind, items: scriptOf(uniform(d, 1+(fp+2)%2), fp, 3)}, hin: is}
 					firsts = append(firsts, append([]bufSpec{w}, os...))
 				}
 			}
@@ -1355,6 +1366,9 @@ func TestC16(t *testing.T) {
 		batch = batch[:0]
 	}
 	handle := func(name string, c caseSpec) {
+		if os.Getenv("C16_DEBUG") != "" && c.nested() {
+			fmt.Fprintln(os.Stderr, "CASE", c.line())
+		}
 		o := runReal(c)
 		nontrivial := len(o.h.log) > 0 && o.e.opens > 1
 		run.Case([]string{c.line()}, nontrivial, model != nil && !oracleOnly(c))
